@@ -6,5 +6,4 @@ INVARIANT AtReturn
 INVARIANT Progress
 INVARIANT HeldOnlyInCall
 PROPERTY BufMonotone
-PROPERTY Terminates
 CHECK_DEADLOCK FALSE
